@@ -161,6 +161,43 @@ class ReturnDefault(PathFacts):
             self.hits.append((stmt, state))
 
 
+def rule_resolver(cx, rid):
+    """the contract the binder assumes for _extract_call_argument, decided by evaluating the function on a complete family of
+    small call texts: keyword=k selects exactly the keyword k (no prefix/suffix/alias match), position=i the i-th positional"""
+    import itertools
+    from .. import dl
+    pm = mod(PARSER)
+    fn = pm.func("_extract_call_argument")
+    r = cx.rule(rid, "_extract_call_argument(text, keyword=k) returns the value of the keyword spelled exactly k (never of one that merely starts or ends with k) and None otherwise; (text, position=i) returns the i-th positional argument or None", floor=800, exhaustive=True)
+    kws = ("p", "p_x", "px", "x_p", "q")
+    n_bad = 0
+    for npos in range(0, 3):
+        for nk in range(0, 3):
+            for ks in itertools.permutations(kws, nk):
+                parts = [str(10 + i) for i in range(npos)] + [f"{k}={20 + j}" for j, k in enumerate(ks)]
+                text = ", ".join(parts)
+                queries = [({"keyword": k}, (str(20 + ks.index(k)) if k in ks else None)) for k in kws + ("zz",)]
+                queries += [({"position": i}, (str(10 + i) if i < npos else None)) for i in range(0, 3)]
+                queries.append(({}, "10" if npos else None))
+                for kwargs, want in queries:
+                    it = dl.Interp(pm, opaque={"ast.parse": ast.parse, "ast.unparse": ast.unparse})
+                    try:
+                        out = it.call(fn, [text], dict(kwargs))
+                    except dl.Unsupported as e:
+                        raise AnalysisError(f"_extract_call_argument left the evaluable subset: {e}")
+                    got = out.value if out.kind == "return" else f"<{out.kind}>"
+                    if got == want:
+                        r.ok(None)
+                    else:
+                        n_bad += 1
+                        if n_bad <= 3:
+                            r.fail(f"_extract_call_argument/{'keyword' if 'keyword' in kwargs else 'position'}-exact", (pm, fn), f"_extract_call_argument({text!r}, {', '.join(f'{a}={b!r}' for a, b in kwargs.items())}) -> {got!r}, expected {want!r}: a lookup for one parameter picks up the argument written for another", detail={"text": text, **kwargs})
+                        else:
+                            r.stat.obligations += 1
+                            r.stat.failed += 1
+    return r
+
+
 def bind_rule(cx, rid_bind="C08-BIND", rid_map="C08-MAP", only=None, floor=300):
     pm = mod(PARSER)
     am = mod("transpile/ast.py")
@@ -188,6 +225,7 @@ def bind_rule(cx, rid_bind="C08-BIND", rid_map="C08-MAP", only=None, floor=300):
             arms.append((rx, arm, sorted(set(built))))
     cx.extra.setdefault("arms", len(arms))
 
+    rule_resolver(cx, rid_bind.rsplit("-", 1)[0] + "-RESOLVER")
     r = cx.rule(rid_bind, "for every call shape accepted by the host signature the arm either rejects the call or binds each IR field to the argument Python binds to the corresponding parameter (omitted parameters get the host default)", floor=floor, exhaustive=True)
     rmap = cx.rule(rid_map, "every IR class built from a user call is mapped to its host callable and every parameter of that callable (other than host-only simulation parameters) is bound into an IR field", floor=(40 if only is None else 1))
     shapes_total = 0
@@ -318,73 +356,45 @@ def run(cx):
                 r.check(ok, f"{q.split('.')[-1]}/returns-default-only-when-absent", (pm, ret), f"`return {rv}` in {q.split('.')[-1]} is reachable when the argument was supplied (path condition {sorted(f[0] for f in alt)[:4]}): an explicit 0/False would be replaced by the default", sample=f"{q.split('.')[-1]}: return {rv} iff absent")
 
     # ---- C08-CORE ----------------------------------------------------------------------------
-    r = cx.rule("C08-CORE", "Core helpers: _call_argument returns the positional or same-named keyword argument for every split/permutation, duplicates and unknown keywords raise, and each helper asks for exactly its signature's (position, name) pairs in signature order", floor=30, exhaustive=True)
+    import itertools
+    r = cx.rule("C08-CORE", "Core helpers: for every split of a call into positional and keyword arguments and every keyword order, the expression translator (evaluated on the call text) passes the arguments to the Arduino function in signature order or rejects the call", floor=15, exhaustive=True)
     core = mod("Core/__init__.py")
     cx.consulted(core)
     tce = pm.func("_to_c_expr")
-    ca = pm.funcs.get("_to_c_expr._call_argument")
-    eak = pm.funcs.get("_to_c_expr._ensure_allowed_keywords")
-    if ca is None or eak is None:
-        raise AnalysisError("_call_argument/_ensure_allowed_keywords vanished")
-    # (a) the binder itself, over all shapes for 1 and 2 parameters incl. keyword permutations
-    for names in (["pin"], ["pin", "value"], ["pin", "mode"]):
-        n = len(names)
-        for npos in range(n + 1):
-            kw_names = names[npos:]
-            for k in range(len(kw_names) + 1):
-                for sub in itertools.permutations(kw_names, k):
-                    args = [ast.Name(id=f"A{i}", ctx=ast.Load()) for i in range(npos)]
-                    kws = [ast.keyword(arg=x, value=ast.Name(id=f"K_{x}", ctx=ast.Load())) for x in sub]
-                    call = ast.Call(func=ast.Name(id="f", ctx=ast.Load()), args=args, keywords=kws)
-                    for pos, nm in enumerate(names):
-                        out = dl.Interp(pm).call(ca, [call, pos, nm])
-                        want = args[pos] if pos < npos else next((kk.value for kk in kws if kk.arg == nm), None)
-                        ok = out.kind == "return" and out.value is want
-                        r.check(ok, f"_call_argument/binds[{'positional' if pos < npos else 'keyword' if want is not None else 'absent'}]", (pm, ca), f"_call_argument(f({', '.join(['A%d' % i for i in range(npos)] + [x + '=..' for x in sub])}), {pos}, {nm!r}) -> {out!r}", sample=None)
-                    # duplicates
-                    if npos >= 1:
-                        dup = ast.Call(func=ast.Name(id="f", ctx=ast.Load()), args=args, keywords=kws + [ast.keyword(arg=names[0], value=ast.Constant(0))])
-                        out = dl.Interp(pm).call(ca, [dup, 0, names[0]])
-                        r.check(out.kind == "raise", "_call_argument/duplicate-raises", (pm, ca), "positional + same-named keyword must be rejected")
-                    bad = ast.Call(func=ast.Name(id="f", ctx=ast.Load()), args=args, keywords=kws + [ast.keyword(arg="bogus", value=ast.Constant(0))])
-                    out = dl.Interp(pm).call(eak, [bad, set(names)])
-                    r.check(out.kind == "raise", "_ensure_allowed_keywords/unknown-raises", (pm, eak), "an unknown keyword must be rejected")
-                    out = dl.Interp(pm).call(eak, [call, set(names)])
-                    r.check(out.kind == "return", "_ensure_allowed_keywords/known-accepted", (pm, eak), "known keywords must be accepted")
-    # (b) each helper's lookups = its signature
-    emit_fn = pm.func("_to_c_expr.emit")
-    for n in ast.walk(emit_fn):
-        if isinstance(n, ast.If) and isinstance(n.test, ast.Compare) and norm(n.test.left) == "fname" and isinstance(n.test.ops[0], ast.Eq):
-            helper = lit.try_ev(n.test.comparators[0])
-            if helper not in core.funcs:
-                continue
-            sig = [p[0] for p in func_params(core.func(helper))]
-            looks = []
-            allowed = None
-            assign = {}
-            for st in n.body:
-                for c in ast.walk(st):
-                    if isinstance(c, ast.Call) and call_name(c) == "_call_argument":
-                        looks.append((lit.try_ev(c.args[1]), lit.try_ev(c.args[2])))
-                    if isinstance(c, ast.Call) and call_name(c) == "_ensure_allowed_keywords":
-                        allowed = lit.try_ev(c.args[1])
-                if isinstance(st, ast.Assign) and isinstance(st.targets[0], ast.Name):
-                    assign[st.targets[0].id] = st.value
-            r.check(looks == list(enumerate(sig)), f"{helper}/lookups=signature", (pm, n), f"{helper}{tuple(sig)} is bound through lookups {looks}")
-            r.check(allowed == set(sig), f"{helper}/allowed-keywords", (pm, n), f"{helper} allows keywords {allowed}, signature has {sig}")
-            # hole order of the returned template follows the signature
-            rets = [x for x in n.body if isinstance(x, ast.Return)]
-            if rets and isinstance(rets[-1].value, ast.JoinedStr):
-                holes = [norm(v.value) for v in rets[-1].value.values if isinstance(v, ast.FormattedValue)]
-                order = []
-                for h in holes:
-                    src_ = assign.get(h)
-                    # pin_expr = _render_pin_argument(pin_node); pin_node = _call_argument(n, 0, "pin")
-                    seen = 0
-                    while isinstance(src_, ast.Call) and call_name(src_) != "_call_argument" and src_.args and seen < 4:
-                        a0 = src_.args[0]
-                        src_ = assign.get(a0.id) if isinstance(a0, ast.Name) else None
-                        seen += 1
-                    if isinstance(src_, ast.Call) and call_name(src_) == "_call_argument":
-                        order.append(lit.try_ev(src_.args[2]))
-                r.check(order == sig, f"{helper}/template-argument-order", (pm, rets[-1]), f"emitted call passes {order}, signature order is {sig}")
+    CORE = {"pin_mode": "pinMode", "digital_write": "digitalWrite", "analog_write": "analogWrite", "digital_read": "digitalRead", "analog_read": "analogRead"}
+    n_shapes = 0
+    for helper, cfn in CORE.items():
+        if helper not in core.funcs:
+            raise AnalysisError(f"Core.{helper} vanished")
+        sig = [p_[0] for p_ in func_params(core.func(helper))]
+        vals = {p_: f"arg_{p_}" for p_ in sig}
+        shapes = []
+        for npos in range(0, len(sig) + 2):
+            for kws in itertools.chain.from_iterable(itertools.permutations(sig + ["bogus"], k) for k in range(0, len(sig) + 1)):
+                shapes.append((npos, kws))
+        for npos, kws in shapes:
+            pos = [vals[sig[i]] if i < len(sig) else "surplus" for i in range(npos)]
+            text = f"{helper}(" + ", ".join(pos + [f"{k}={vals.get(k, 'zz')}" for k in kws]) + ")"
+            bound = {}
+            valid = npos <= len(sig) and "bogus" not in kws
+            if valid:
+                for i in range(npos):
+                    bound[sig[i]] = vals[sig[i]]
+                for k in kws:
+                    if k in bound:
+                        valid = False
+                    bound[k] = vals[k]
+                valid = valid and set(bound) == set(sig)
+            it = dl.Interp(pm, opaque={"ast.parse": ast.parse, "ast.unparse": ast.unparse})
+            try:
+                out = it.call(tce, [text, {}, {}])
+            except dl.Unsupported as e:
+                raise AnalysisError(f"_to_c_expr left the evaluable subset on `{text}`: {e}")
+            n_shapes += 1
+            if valid:
+                want = f"{cfn}(" + ", ".join(vals[p_] for p_ in sig) + ")"
+                r.check(out.kind == "raise" or (out.kind == "return" and out.value == want), f"{helper}/arguments-in-signature-order[{npos} positional; keywords {list(kws)}]", (pm, tce), f"`{text}` is translated to {out!r}; Python binds it as {want}", sample=None)
+            # calls the signature does not accept (surplus positional, unknown/duplicate keyword, missing argument) are outside
+            # the property: Python itself rejects them before anything is commanded
+    cx.extra["core_shapes"] = n_shapes
+
